@@ -833,6 +833,7 @@ pub fn run(ctx: &Ctx, args: &Args) -> i32 {
 
     let mut report = Report::new();
     let mut signatures: BTreeMap<String, (u64, String, u64)> = BTreeMap::new();
+    let mut nonterminating_families: std::collections::BTreeSet<String> = std::collections::BTreeSet::new();
     for (shard, log, child) in children {
         let mut child = match child {
             Ok(c) => c,
@@ -862,7 +863,15 @@ pub fn run(ctx: &Ctx, args: &Args) -> i32 {
                 // clock): the open case is re-run alone under `ulimit -t`
                 let open = last_open_case(&text);
                 let mut decided = false;
-                if let Some((family, seed)) = &open {
+                if let Some((family, _)) = &open {
+                    if nonterminating_families.contains(family) {
+                        // one confirmed non-terminating case of this family is the verdict: the other workers that
+                        // hit the watchdog in the same family are not confirmed one by one (120 s of CPU each)
+                        report.inconclusive(format!("worker {shard} also exceeded the watchdog while running {open:?}; not triaged: a non-terminating case of family {family} is already reported"));
+                        decided = true;
+                    }
+                }
+                if let (false, Some((family, seed))) = (decided, &open) {
                     let alone_log = dir.join(format!("hang-{family}-{seed}.log"));
                     let cmd = format!(
                         "ulimit -t {CPU_LIMIT_ALONE}; exec '{}' C07 --tier {} --seed {} --verif-dir '{}' --child 0 1 '{}' --only {family} {seed}",
@@ -881,6 +890,7 @@ pub fn run(ctx: &Ctx, args: &Args) -> i32 {
                                 format!("case family={family} seed={seed} does not terminate: run alone it was still running after {CPU_LIMIT_ALONE} s of CPU time (a case of this family needs milliseconds)"),
                                 json!({"family": family, "seed": seed}),
                             );
+                            nonterminating_families.insert(family.clone());
                             decided = true;
                         }
                     }
